@@ -23,6 +23,7 @@ ASSUMPTIONS = ["model = hand-written ImplPRBS.v; tie = differential run on the c
                "at construction is never read before synchronize() zeroes it (shown by the model: history is a parameter of prbs_new)"]
 
 LOCK_BOUND = 27
+TRUE_LOCK_BOUND = 124      # c18_true_lock_from_any_state: 27 (flag) + 70 (a false lock unlocks) + 27
 LOCK_RUN = 18
 WINDOW = 128
 UNLOCK = 25
@@ -51,13 +52,13 @@ def gen_cases(ctx):
         ctx.count("phase-new")
         cases.append(f"V{''.join(str(r.below(2)) for _ in range(r.range(1, 40)))} R S{p} T60")
         ctx.count("phase-after-reset")
-        cases.append(f"V{''.join(str(r.below(2)) for _ in range(r.range(1, 60)))} S{p} T120")
+        cases.append(f"V{''.join(str(r.below(2)) for _ in range(r.range(1, 60)))} S{p} T150")
         ctx.count("phase-garbage-prefix")
         # locked on another phase, unlocked by a burst of inverted bits, phase jump, clean
         q = r.below(511)
         burst = r.range(25, 40)
         start = r.range(0, 30)
-        cases.append(f"S{q} T{40 + start + burst}:{','.join(str(40 + start + i) for i in range(burst))} S{p} T120")
+        cases.append(f"S{q} T{40 + start + burst}:{','.join(str(40 + start + i) for i in range(burst))} S{p} T150")
         ctx.count("phase-after-unlock")
     # ---- one inverted bit at every position of two periods
     reps = 3 if thorough else 1
@@ -118,6 +119,8 @@ class Oracle:
         self.prev_e = self.prev_b = 0
         self.clean = 0            # most recent inputs that were uninverted, phase-continuous generator bits
         self.deadline = None      # (bits left) by which sync must be raised
+        self.deadline2 = None     # (bits left) by which a true lock must have happened, from any unsynced state
+        self.d2_e0 = 0
         self.engaged = False      # locked with the generator's register: the counting half applies
         self.win = deque(maxlen=WINDOW)
         self.exp_e = self.exp_b = 0
@@ -132,12 +135,14 @@ class Oracle:
     def jump(self):               # generator phase changes / reset: the input is no longer the continuation
         self.clean = 0
         self.deadline = None
+        self.deadline2 = None
         self.engaged = False
 
     def reset(self):
         self.synced = False
         self.prev_e = self.prev_b = 0
         self.deadline = None
+        self.deadline2 = None
         self.engaged = False
 
     def feed(self, from_gen, flipped, remaining_clean, o):
@@ -149,6 +154,11 @@ class Oracle:
             self.clean += 1
         else:
             self.clean = 0
+        if not (from_gen and not flipped):
+            self.deadline2 = None
+        elif self.deadline2 is None and not was_synced and remaining_clean >= TRUE_LOCK_BOUND:
+            self.deadline2 = TRUE_LOCK_BOUND
+            self.d2_e0 = self.prev_e
         if not was_synced:
             if self.deadline is None and from_gen and not flipped and remaining_clean >= LOCK_BOUND:
                 self.deadline = LOCK_BOUND
@@ -199,6 +209,16 @@ class Oracle:
         if was_synced and not syn:
             self.engaged = False
             self.deadline = None
+        if self.deadline2 is not None:
+            self.deadline2 -= 1
+            if self.engaged:
+                if e not in (self.d2_e0, (self.d2_e0 + UNLOCK) % 2 ** 32):
+                    self.fail("prbs-spurious-errors-before-lock", "errors() grew by something other than 0 or 25 while acquiring on an "
+                              "error-free sequence", before=self.d2_e0, observed=e)
+                self.deadline2 = None
+            elif self.deadline2 == 0:
+                self.fail("prbs-no-true-lock-within-124", "validator fed 124 error-free bits of the sequence is not locked on the "
+                          "generator's register", observed=dict(sync=syn, errors=e, bits=b))
         self.synced = bool(syn)
         self.prev_e, self.prev_b = e, b
 
